@@ -146,7 +146,83 @@ def probe_network(tag, cls, g, make):
         editable = False
     recs.append({"rid": f"{tag}.{cls}.copy", "what": f"{cls}.copy() of a frozen network", "kind": "copy", "name": "copy",
                  "twinChanged": bool(editable), "res": "ok", "pre": pre, "post": post})
-    # subhypergraph results are frozen and must resist the same probes
+    # editing the copy of a frozen network must not reach the frozen original (shared internal sets)
+    fz = make()
+    fz.freeze()
+    pre, _ = proj(fz, g)
+    cp = fz.copy()
+    jn, je = j0["nodes"], j0["edges"]
+    edits = []
+    if cls == "DH":
+        edits = [lambda: cp.add_node_to_edge(g.edge(je[0]), g.node(9), "in") if je else None,
+                 lambda: cp.remove_edge(g.edge(je[-1])) if je else None, lambda: cp.remove_node(g.node(jn[0])) if jn else None]
+    elif cls == "H":
+        edits = [lambda: cp.add_node_to_edge(g.edge(je[0]), g.node(9)) if je else None,
+                 lambda: cp.remove_node_from_edge(g.edge(je[0]), g.node(9)) if je else None,
+                 lambda: cp.remove_edge(g.edge(je[-1])) if je else None, lambda: cp.remove_node(g.node(jn[0])) if jn else None,
+                 lambda: cp.clear_edges()]
+    else:
+        edits = [lambda: cp.remove_simplex_id(g.edge(je[-1])) if je else None, lambda: cp.remove_node(g.node(jn[0])) if jn else None]
+    for ei, ed in enumerate(edits):
+        with warnings.catch_warnings():
+            warnings.simplefilter("ignore")
+            try:
+                ed()
+            except Exception:  # noqa: BLE001
+                pass
+        post, _ = proj(fz, g)
+        recs.append({"rid": f"{tag}.{cls}.copyedit{ei}", "what": f"edit #{ei} on the copy of a frozen {cls}", "kind": "probe",
+                     "name": "copy+edit", "twinChanged": False, "res": "liberr", "pre": pre, "post": post})
+    # a frozen network that went through pickle / deepcopy: is_frozen must tell the truth
+    import copy as _copy
+    import pickle as _pickle
+
+    for how, f in (("pickle", lambda x: _pickle.loads(_pickle.dumps(x))), ("deepcopy", _copy.deepcopy)):
+        fz = make()
+        fz.freeze()
+        with warnings.catch_warnings():
+            warnings.simplefilter("ignore")
+            try:
+                clone = f(fz)
+            except Exception:  # noqa: BLE001
+                continue
+        if not clone.is_frozen:
+            continue  # an unfrozen clone is a legitimate answer
+        pre, _ = proj(clone, g)
+        try:
+            clone.add_node(g.node(9))
+            res = "ok"
+        except Exception as ex:  # noqa: BLE001
+            res = hg.classify(ex)
+        post, _ = proj(clone, g)
+        recs.append({"rid": f"{tag}.{cls}.{how}.add_node", "what": f"add_node on a {how} clone reporting is_frozen", "kind": "probe",
+                     "name": f"{how}+add_node", "twinChanged": True, "res": res, "pre": pre, "post": post})
+    # subhypergraph results are frozen (whatever the selection) and must resist the same probes
+    if cls in ("H", "SC"):
+        sels = [dict(), dict(nodes=[]), dict(nodes=[g.node(77)]), dict(nodes=[], edges=[]), dict(edges=[]),
+                dict(nodes=[g.node(x) for x in j0["nodes"][:1]])]
+        for si, kw in enumerate(sels):
+            sub = xgi.subhypergraph(make(), **kw)
+            js, _ = proj(sub, g)
+            try:
+                sub.add_node(g.node(9))
+                res = "ok"
+            except Exception as ex:  # noqa: BLE001
+                res = hg.classify(ex)
+            jp, _ = proj(sub, g)
+            recs.append({"rid": f"{tag}.{cls}.sub{si}", "what": f"subhypergraph({kw}) then add_node", "kind": "probe",
+                         "name": "subhypergraph+add_node", "twinChanged": True, "res": res, "pre": js, "post": jp})
+        for emptyk in (0,):
+            sub = xgi.subhypergraph(nets.CLASSES[cls][0]())
+            js, _ = proj(sub, g)
+            try:
+                sub.add_node(g.node(9))
+                res = "ok"
+            except Exception as ex:  # noqa: BLE001
+                res = hg.classify(ex)
+            jp, _ = proj(sub, g)
+            recs.append({"rid": f"{tag}.{cls}.subempty", "what": "subhypergraph(empty network) then add_node", "kind": "probe",
+                         "name": "subhypergraph+add_node", "twinChanged": True, "res": res, "pre": js, "post": jp})
     if cls == "H":
         sub = xgi.subhypergraph(make())
         js, _ = proj(sub, g)
